@@ -112,6 +112,11 @@ func dataConfig(name string) map[string]interface{} {
 		return d
 	case "sigma":
 		return sigmaEvalData()
+	case "sigma-hv":
+		sd := sigmaEvalData()
+		sd["hv"] = func(head interface{}, rest ...interface{}) (interface{}, error) { return len(rest), nil }
+		sd["hv0"] = variadicFunc
+		return sd
 	case "none":
 		return nil
 	}
@@ -275,6 +280,82 @@ func runC03(w *eng.W) {
 		w.Note("leg:reported-misuse", 1)
 		w.Sample("reported-misuse", src)
 		c03Misuse.Do(w, EvalCase{Src: src, Data: "sigma"})
+	}
+	// (g2) the same, systematically: every builtin with every wrong number of arguments (plain, and with the
+	// last argument spread - for a variadic callee a spread call has exactly its fixed arguments before the
+	// list), and the string builtins with every negative position down to the smallest 64-bit integer
+	{
+		sd := sigmaEvalData()
+		sd["hv"] = func(head interface{}, rest ...interface{}) (interface{}, error) { return len(rest), nil }
+		sd["hv0"] = variadicFunc
+		names := append(append([]string{}, builtinNames...), "hv", "hv0", "f", "m.f")
+		for _, name := range names {
+			if !w.Take() {
+				continue
+			}
+			o, _ := evalSrc("["+name+"]", sd)
+			arr, ok := o.val.([]interface{})
+			if o.err != nil || o.panicked || !ok || len(arr) != 1 || arr[0] == nil || reflect.TypeOf(arr[0]).Kind() != reflect.Func {
+				continue
+			}
+			t := reflect.TypeOf(arr[0])
+			in, variadic := t.NumIn(), t.IsVariadic()
+			if in > 0 && t.In(0).Implements(reflect.TypeOf((*context.Context)(nil)).Elem()) {
+				in--
+			}
+			misuse := func(src string) {
+				w.State(1)
+				w.Trans(1)
+				w.Trace(1)
+				w.Note("leg:reported-misuse", 1)
+				w.Sample("reported-misuse", src)
+				c03Misuse.Do(w, EvalCase{Src: src, Data: "sigma-hv"})
+			}
+			list := func(k int, last string) string {
+				parts := make([]string, 0, k+1)
+				for i := 0; i < k; i++ {
+					parts = append(parts, "1")
+				}
+				if last != "" {
+					parts = append(parts, last)
+				}
+				return name + "(" + strings.Join(parts, ", ") + ")"
+			}
+			if variadic {
+				fixed := in - 1
+				for k := 0; k < fixed; k++ {
+					misuse(list(k, ""))
+				}
+				for k := 0; k <= fixed+3; k++ {
+					if k != fixed {
+						misuse(list(k, "[1, 2]..."))
+						misuse(list(k, "[]..."))
+					}
+				}
+			} else {
+				for k := 0; k <= in+3; k++ {
+					if k != in {
+						misuse(list(k, ""))
+					}
+				}
+			}
+		}
+		if w.Take() {
+			for _, fn := range []string{"left('abc', %s)", "right('abc', %s)", "left('', %s)", "right('', %s)", "right('abcdefghij', %s)", "left(s, %s)", "right(s, %s)"} {
+				for _, pos := range []string{"1", "2", "3", "4", "5", "10", "11", "1000", "2147483648", "2147483649", "4294967296", "4294967297", "9007199254740993", "4611686018427387904", "9223372036854775798", "9223372036854775797",
+					"9223372036854775803", "9223372036854775804", "9223372036854775805", "9223372036854775806", "9223372036854775807", "9223372036854775808"} {
+					for _, neg := range []string{"-" + pos, "(0 - " + pos + ")", "-" + pos + ".0"} {
+						src := strings.Replace(fn, "%s", neg, 1)
+						w.State(1)
+						w.Trans(1)
+						w.Trace(1)
+						w.Note("leg:reported-misuse", 1)
+						w.Sample("reported-misuse", src)
+						c03Misuse.Do(w, EvalCase{Src: src, Data: "sigma"})
+					}
+				}
+			}
+		}
 	}
 	// (c) builtins x argument lists
 	argAlpha := []string{"null", "true", "1", "-1", "2.5", "1e6", "1e30", "(0/0)", "'abc'", "''", "'('", "[1,'a']", "['a','b']", "v32", "v41", "[[1]]", "-3", "0", "1e-30000000", "this", "($c = this)", "92233720368547758080e999999999", "92233720368547758080e-999999999", "1e-999999999", "'12345678901234567890123e99999999'"}
